@@ -42,7 +42,7 @@ def plan(tier, seed):
 def mandatory_bins(tier):
     b = ["hash_" + h for h in HASHES] + ["enc_" + e for e in ENCODINGS]
     b += ["digest_longer_than_order", "key_scalar_1", "key_scalar_n-1", "lib_sig_verified_by_openssl", "openssl_sig_verified_by_lib", "rfc6979_compared", "message_bit_flips", "signature_bit_flips",
-          "other_key", "forged_r_0", "forged_s_0", "forged_r_n", "forged_s_n", "forged_r_n_plus_1", "forged_2^k", "malformed_truncated", "malformed_extended", "malformed_retagged", "der_long_form_length", "high_s_and_low_s", "verifying_key_with_precomputed_tables", "rfc6979_with_additional_data", "rfc6979_with_additional_data_and_rejected_first_candidate", "malformed_strings_components_resplit", "key_loaded_with_hashfunc_argument", "digest_equal_to_the_order_or_next_to_it"]
+          "other_key", "forged_r_0", "forged_s_0", "forged_r_n", "forged_s_n", "forged_r_n_plus_1", "forged_2^k", "malformed_truncated", "malformed_extended", "malformed_retagged", "der_long_form_length", "high_s_and_low_s", "verifying_key_with_precomputed_tables", "rfc6979_with_additional_data", "rfc6979_with_additional_data_and_rejected_first_candidate", "malformed_strings_components_resplit", "key_loaded_with_hashfunc_argument", "digest_equal_to_the_order_or_next_to_it", "hash_of_the_call_differs_from_the_keys_default"]
     return b
 
 
@@ -146,6 +146,22 @@ def run_shard(spec, ctx):
                             ctx.violation("library_rejects_its_own_signature:deterministic", {"digest": "order%+d" % delta}, dict(rp0, d=hex(d), hash=hname, digest=dg.hex()))
                     except Exception as e:
                         ctx.violation("sign_raises", {"exc": fmt_exc(e), "digest": "order%+d" % delta}, dict(rp0, d=hex(d), hash=hname, digest=dg.hex()))
+            # the hash named in the CALL differs from the key's own default hash: message digest AND the RFC 6979 nonce derivation
+            # both use the hash of the call
+            other_hf = hashlib.sha1 if hname != "sha1" else hashlib.sha384
+            try:
+                sk_o = K.SigningKey.from_secret_exponent(d, curve=cv, hashfunc=other_hf)
+                m_o = rng.randbytes(12)
+                s_o = sk_o.sign_deterministic(m_o, hashfunc=hf, sigencode=ns.util.sigencode_string)
+                er_, es_, _ = RFC.sign(n, d, hf(m_o).digest(), hf, lambda k: ossl.point_mul(name, k)[0])
+                ctx.ev()
+                ctx.bin("hash_of_the_call_differs_from_the_keys_default")
+                if tuple(ns.util.sigdecode_string(s_o, n)) != (er_, es_):
+                    ctx.violation("deterministic_signature_differs_from_rfc6979:hash_of_the_call_differs_from_the_keys_default", {"hash": hname, "key_default": other_hf().name}, dict(rp0, d=hex(d), hash=hname, msg=m_o.hex()))
+                elif sk_o.verifying_key.verify(s_o, m_o, hashfunc=hf) is not True:
+                    ctx.violation("library_rejects_its_own_signature:deterministic", {"hash": hname}, dict(rp0, d=hex(d), hash=hname, msg=m_o.hex()))
+            except Exception as e:
+                ctx.violation("sign_raises", {"exc": fmt_exc(e), "hash_of_call_differs": True}, dict(rp0, d=hex(d), hash=hname))
             msg = rng.randbytes(16)
             digest = hf(msg).digest()
             # keys loaded from DER / PEM / string with a hashfunc argument: that hash is the default of the key (and of the public
